@@ -481,6 +481,7 @@ def check_C03(ctx: Ctx) -> None:
                 ctx.fail("namespace row in a stream without namespace declarations", dict(request=c["req"]))
     _c03_version_cases(ctx)
     _c03_frame_length_cases(ctx)
+    _c03_graph_api(ctx, ctx.rng("graph-api"))
 
 
 def _c03_version_cases(ctx: Ctx) -> None:
@@ -554,6 +555,51 @@ def _c03_frame_length_cases(ctx: Ctx) -> None:
             ctx.fail(f"a frame of exactly {target} bytes is not readable by an independent decoder ({verdict})", dict(request=req[:300], nbytes=len(b)))
         elif impl.run_par("flat", False, "seek", b) != want + " end":
             ctx.fail(f"a frame of exactly {target} bytes does not round-trip", dict(request=req[:300], nbytes=len(b)))
+
+
+def _c03_graph_api(ctx: Ctx, r) -> None:
+    """GraphStream.graph() called directly, graph by graph, INCLUDING empty graphs (IRI, blank-node and default names)
+    before, between and after non-empty ones, through both term encoders: what was written must be valid for the referee
+    and denote exactly the triples of the non-empty graphs."""
+    import common
+
+    reqs, resp, metas = [], [], []
+    for i in range(ctx.n(120, 1200)):
+        integ = "rdflib" if i % 3 == 2 else "generic"
+        o = Opts(fs=r.choice([1, 2, 250]), lt=0, gen=integ == "generic", star=integ == "generic", delim=True,
+                 pn=r.choice([8, 16]), pp=r.choice([0, 2, 4]), pd=4)
+        g = gen.G(r, n_prefixes=3, n_names=4, star=False, generalized=False, case_langs=False) if integ == "rdflib" else gen.G(r, n_prefixes=3, n_names=4)
+        if integ == "rdflib":
+            g.bnode = lambda: BlankNode(r.choice(["b0", "b1", "n1"]))
+        ops, want = [("enroll",)], []
+        for j in range(r.randint(2, 6)):
+            gid = r.choice([IRI("http://g.example/" + r.choice("abc")), IRI("urn:g:" + r.choice("xy")), BlankNode("g" + r.choice("12")), DefaultGraph])
+            triples, tp = [], None
+            for _ in range(r.choice([0, 0, 1, 2])):
+                tp = g.triple(tp)
+                if integ == "rdflib" and not __import__("rimpl").rdf11(tp):
+                    continue
+                if gen.fits([Quad(*tp, gid)], o.pn, o.pp, o.pd):
+                    triples.append(tuple(tp))
+            ops.append(("g", gid, triples))
+            want += [Quad(*t, gid) for t in triples]
+        ops.append(("flush",))
+        line = impl.run_step("G", o, ops, integration=integ)
+        reqs.append(f"step G {o.token()} " + " ".join(impl.step_op_token(op) for op in ops))
+        resp.append(line)
+        ctx.case(("graph-api", integ, reqs[-1]), any(not op[2] for op in ops if op[0] == "g"))
+        ctx.dist["graph_api:" + integ] += 1
+        metas.append((reqs[-1], line, want))
+    for q, a, m in zip(reqs, resp, common.run_driver(reqs)):
+        ctx.compare("SERSTEP", q, a, m.replace("~", ""))
+    todo = [(q, line, want) for q, line, want in metas if "!" not in line]
+    frames = [b"".join(bytes.fromhex(f[1:]) for t in line.split(" ")[:-1] for f in t.split("+") if f.startswith("F")) for _, line, _ in todo]
+    for (q, line, want), sline in zip(todo, common.run_driver([spec_line(b, True) for b in frames])):
+        verdict, evs, _ = parse_spec_response(sline)
+        want_t = "_" if not want else " ".join("S" + stmt_text(gen.normalize_stmt(x)) for x in want)
+        if verdict != "ok" or evs != want_t:
+            ctx.fail(f"GraphStream.graph() sequence with empty graphs: output is not valid / does not denote the input ({verdict})",
+                     dict(request=q[:2500], referee=sline[:800], want=want_t[:800]))
 
 
 def _dedup_bindings(bindings):
@@ -1340,6 +1386,12 @@ def check_C08(ctx: Ctx) -> None:
         ctx.case(("ref", s["bytes"][:3].hex(), s["delimited"]), True)
         if len(s["bytes"]) >= 3 and h != ("1" if s["delimited"] else "0"):
             ctx.fail("valid stream misclassified", dict(bytes=s["bytes"].hex(), delimited=s["delimited"]))
+        got = impl.run_par("flat", False, "seek", s["bytes"])
+        if got != s["events_text"] + " end":
+            ctx.fail("valid stream (first frame empty or starting with a row) is classified correctly but does not parse to its content",
+                     dict(bytes=s["bytes"].hex(), delimited=s["delimited"], got=got[:600], want=s["events_text"][:600]))
+        if s["bytes"][:1] == b"\x00":
+            ctx.dist["reference_streams_with_leading_empty_frame"] += 1
 
 
 def _c08_positioned_and_plugin(ctx: Ctx, r) -> None:
@@ -1520,6 +1572,47 @@ def check_C09(ctx: Ctx) -> None:
                     ctx.dist["positioned_seekable"] += 1
                     if got != base:
                         ctx.fail(f"{label}: parses differently from an in-memory buffer of the same bytes", dict(bytes=b.hex(), source=label, got=got[:300], want=base[:300]))
+        # directed header shapes x every way of delivering the first four bytes in short reads
+        opt_min = jelly.RdfStreamOptions(physical_type=1, max_name_table_size=8, version=1)
+        opt_ten = jelly.RdfStreamOptions(physical_type=1, logical_type=1, max_name_table_size=8, version=1)
+        body = [jelly.RdfStreamRow(triple=jelly.RdfTriple(s_bnode="a", p_bnode="b", o_bnode="c")),
+                jelly.RdfStreamRow(triple=jelly.RdfTriple(o_bnode="d"))]
+        shapes = {
+            "delimited, first frame of exactly 10 bytes (0A 0A NN)": refenc.frames_to_bytes(
+                [jelly.RdfStreamFrame(rows=[jelly.RdfStreamRow(options=opt_min)]), jelly.RdfStreamFrame(rows=body)], True),
+            "non-delimited, options row of exactly 10 bytes (0A 0A 0A)": refenc.frames_to_bytes(
+                [jelly.RdfStreamFrame(rows=[jelly.RdfStreamRow(options=opt_ten), *body])], False),
+            "delimited, first frame empty (00 ..)": refenc.frames_to_bytes(
+                [jelly.RdfStreamFrame(), jelly.RdfStreamFrame(rows=[jelly.RdfStreamRow(options=opt_min), *body])], True),
+            "delimited, ordinary": refenc.frames_to_bytes([jelly.RdfStreamFrame(rows=[jelly.RdfStreamRow(options=opt_ten), *body])], True),
+        }
+        heads = [[1, 1, 1, 1], [1, 1, 2], [1, 2, 1], [1, 3], [2, 1, 1], [2, 2], [3, 1], [4], [1], [2], [3], [2, 1], [1, 2], [7, 1, 7]]
+        for label, b in shapes.items():
+            base = impl.run_par("flat", False, "seek", b)
+            ctx.case(("header-shape", label), True)
+            ctx.dist["header_shape:" + b[:3].hex()] += 1
+            if not base.endswith(" end"):
+                ctx.fail(f"{label}: does not parse from an in-memory buffer ({base[-40:]})", dict(bytes=b.hex()))
+                continue
+            for sched in heads:
+                for default in (1, 4096):
+                    for buffered in (False, True):
+                        src = impl.RawSource(b, list(sched), default=default)
+                        if buffered:
+                            src = io.BufferedReader(src)
+                        evs, err = [], None
+                        try:
+                            for ev in parse_jelly_flat(src):
+                                evs.append(ev)
+                        except Exception as e:  # noqa: BLE001
+                            err = e
+                        got = events_text(evs) + " " + ("end" if err is None else "!" + type(err).__name__)
+                        ctx.dist["header_shape_schedules"] += 1
+                        if got != base:
+                            ctx.fail(f"{label}: result depends on how the first bytes are delivered",
+                                     dict(bytes=b.hex(), schedule=sched, then=default, buffered=buffered, got=got[:300], want=base[:300]))
+                reqs.append(f"par flat 0 1 raw:{','.join(map(str, sched))} {b.hex()}")
+                resp.append(impl.run_par("flat", False, f"raw:{','.join(map(str, sched))}", b))
     finally:
         import shutil
 
@@ -2827,6 +2920,12 @@ def check_C02(ctx: Ctx) -> None:
             o.lt = {"T": 1, "Q": 2, "G": 2}[cls]
         stmts = _rdf11_statements(r, data_cls, o, r.randint(0, 14))
         store = _to_store(stmts, data_cls)
+        if data_cls == "Q" and r.random() < 0.35:
+            # graphs that were registered but hold nothing (ds.graph(name)): Dataset.graphs() lists them
+            from rdflib import BNode, URIRef
+            for name in r.sample([URIRef("http://empty.example/g1"), URIRef("urn:empty:2"), BNode("e3"), URIRef("http://empty.example/ns#g4")], r.randint(1, 3)):
+                store.graph(name)
+            ctx.dist["datasets_with_empty_named_graphs"] += 1
         want = sorted(set(_norm_text(t) for t in rimpl.store_quads(store)))
         req, line, b = rimpl.run_serr(cls, o, store)
         reqs.append(req)
@@ -3098,6 +3197,22 @@ def check_C14(ctx: Ctx) -> None:
         want_st = [stmt_text(x) for x in expected_events(all_st, cls)]
         if st_on != st_off or st_on != want_st:
             ctx.fail("grouped: enabling namespace declarations changes the statements read back", dict(request=reqs[-2], got=st_on[:6], want=want_st[:6]))
+        # read back GROUPED: with a grouped logical type each source sink travels in its own frame, so each sink read back
+        # must carry exactly the bindings of its source (compared after the whole stream was read: no sink may later acquire
+        # bindings declared in another frame)
+        if o.lt in (3, 4) and all(len(sk) for sk in sinks):
+            from pyjelly.integrations.generic.parse import parse_jelly_grouped
+            try:
+                back = list(parse_jelly_grouped(io.BytesIO(out[True][1])))
+            except Exception as e:  # noqa: BLE001
+                ctx.fail(f"grouped: parse_jelly_grouped raised {type(e).__name__}", dict(request=reqs[-2]))
+                continue
+            want_b = [_dedup_bindings([(pfx, term_text(iri)) for pfx, iri in sk.namespaces]) for sk in sinks]
+            got_b = [_dedup_bindings([(pfx, term_text(iri)) for pfx, iri in sk.namespaces]) for sk in back]
+            ctx.dist["grouped_read_back_per_sink"] += 1
+            if got_b != want_b:
+                ctx.fail("grouped: the bindings of the sinks read back (one per frame) differ from the bindings of the source sinks",
+                         dict(request=reqs[-2], got=str(got_b)[:600], want=str(want_b)[:600]))
     ctx.corr("SER", reqs, resp)
     import common
     for (req, want_ns, on), line in zip(spec_meta, common.run_driver(spec_reqs)):
@@ -3223,4 +3338,42 @@ def check_C15(ctx: Ctx) -> None:
         ctx.dist["serializer_pairs"] += 1
         if gline != rline:
             ctx.fail("generic and rdflib serializers differ on corresponding data", dict(request=req, generic=gline[:600], rdflib=rline[:600]))
+    # (c2) the same with namespace declarations: an rdflib Graph / Dataset with its bindings against a generic sink holding
+    # the same statements in the same order and the same bindings in the same order, small frame sizes included
+    import rdflib
+
+    def from_rdflib(t):
+        if isinstance(t, rdflib.URIRef):
+            return DefaultGraph if t == rdflib.graph.DATASET_DEFAULT_GRAPH_ID else IRI(str(t))
+        if isinstance(t, rdflib.BNode):
+            return BlankNode(str(t))
+        return Literal(str(t), langtag=t.language, datatype=None if t.datatype is None else str(t.datatype))
+
+    for i in range(ctx.n(60, 600)):
+        cls = r.choice("TQ")
+        o = rand_opts(r, cls, delimited=True)
+        o.gen = o.star = False
+        o.ns = True
+        o.fs = r.choice([1, 2, 4, 8, 250])
+        stmts = _rdf11_statements(r, cls, o, r.randint(1, 8))
+        if not stmts:
+            continue
+        store = _to_store(stmts, cls)
+        for j in range(r.randint(0, 3)):
+            store.bind(f"u{j}", rdflib.URIRef(r.choice(["http://u.example/a#", "http://u.example/b/", "urn:u:"])), override=True, replace=True)
+        req, rline, rb = rimpl.run_serr(cls, o, store)
+        reqs.append(req)
+        resp.append(rline)
+        if cls == "T":
+            ordered = [Triple(*(from_rdflib(t) for t in st)) for st in store]
+        else:
+            ordered = [Quad(from_rdflib(s_), from_rdflib(p_), from_rdflib(o_), from_rdflib(g_.identifier if isinstance(g_, rdflib.Graph) else g_))
+                       for s_, p_, o_, g_ in store.quads()]
+        sink = mk_sink(ordered, [(pfx, IRI(str(ns))) for pfx, ns in store.namespaces()])
+        gline, gb = impl.run_ser_frames(cls, o, sink, is_sink=True)
+        ctx.case(("ser-pair-ns", cls, o.token(), stmts_text(ordered)), True)
+        ctx.dist["serializer_pairs_with_namespaces"] += 1
+        if gline != rline:
+            ctx.fail("generic and rdflib serializers differ on corresponding data with namespace declarations",
+                     dict(request=req[:1500], generic=gline[:400], rdflib=rline[:400], frame_size=o.fs))
     ctx.corr("SER-rdflib", reqs, resp)
